@@ -200,7 +200,8 @@ class World:
         # shows up as a Repeatable violation.  The few Monte-Carlo evaluations without a random_state argument
         # (GLOBAL_RNG_KINDS) are only repeatable for a given global seed.
         self.ncalls = getattr(self, "ncalls", 0) + 1
-        uses_global = kind in GLOBAL_RNG_KINDS or (kind in ("sample", "tiform") and isinstance(model, vc.TransformedModel))
+        # (a TransformedModel of this world has random_state=11: its IFORM contour and its cached sample are seeded)
+        uses_global = kind in GLOBAL_RNG_KINDS or (kind == "sample" and isinstance(model, vc.TransformedModel))
         np.random.seed(12345 if uses_global else 1000 + self.ncalls)
         import matplotlib
         matplotlib.use("Agg")
@@ -289,12 +290,21 @@ class World:
             return m3.draw_sample(300, random_state=5)
         if kind == "tpdf":
             return model.pdf(x)
+        if kind == "jcdf":
+            # joint cdf (nquad, slow) of the hierarchical model at ONE of the caller's points, the one with a negative
+            # coordinate; the view x[1:2] shares its memory with the caller's array
+            return base.cdf(x[1:2])
+        if kind == "empcdf":
+            # fills the lazily drawn sample of a TransformedModel (seeded by its random_state)
+            if isinstance(model, vc.TransformedModel):
+                return model.empirical_cdf(np.abs(x[:3]) + 0.1)
+            return model.pdf(x)
         raise Machinery(f"unknown evaluation kind {kind}")
 
 
 GLOBAL_RNG_KINDS = {"marginal_icdf", "plot_quantiles"}
 EVALS_ANY = ["pdf", "cdf_icdf", "sample", "marginal_icdf", "iform", "isorm", "hdc", "ds", "and", "or", "design", "plot", "save",
-             "iform3d", "isorm3d", "pdf3d", "sample3d", "tiform", "hdc_limits"]
+             "iform3d", "isorm3d", "pdf3d", "sample3d", "tiform", "hdc_limits", "jcdf", "empcdf"]
 EVALS_FITTED = ["plot_dep", "plot_quantiles"]
 
 
@@ -440,6 +450,16 @@ def run(ctx):
             h = [dict(op="new", m="A", e="")] + ([dict(op="fit", m="A", e="")] if kind in EVALS_FITTED or j % 2 else []) + \
                 [dict(op="eval", m="A", e="e1"), dict(op="eval", m="A", e="e1")]
             conc = {"A": GETTERS[g], "B": GETTERS[g], "e1": kind, "e2": "pdf"}
+            recs.append(replay_history(vc, len(recs) + 1, h, conc, ctx.seed, tmp))
+            meta.append((h, conc))
+    # cache interplay on TransformedModels: a seeded evaluation, then one that fills the lazily drawn sample, then the
+    # seeded evaluation again (and the other way round)
+    tgetters = [g for g in GETTERS if g.endswith("_Hs_S")]
+    for g in tgetters:
+        for e1, e2 in (("tiform", "empcdf"), ("empcdf", "tiform")):
+            h = [dict(op="new", m="A", e="")] + ([dict(op="fit", m="A", e="")] if g == tgetters[0] else []) + \
+                [dict(op="eval", m="A", e="e1"), dict(op="eval", m="A", e="e2"), dict(op="eval", m="A", e="e1")]
+            conc = {"A": g, "B": g, "e1": e1, "e2": e2}
             recs.append(replay_history(vc, len(recs) + 1, h, conc, ctx.seed, tmp))
             meta.append((h, conc))
     failing = ctx.validate("Trace_C19", "Trace_C19.cfg", recs)
